@@ -313,17 +313,19 @@ def ob_reactions_frame(kind):
     return Verdict(DISCHARGED, backend="native", sub=3)
 
 
-def ob_calc_reaction(algo):
+def ob_calc_reaction(algo, extra=0):
     """_Simu.Calc_Reaction from the AST on symbolic matrices and vectors: the returned values are (K u)[dofs] for an elliptic problem,
     (K u + C v)[dofs] for a parabolic one and (K u + C v + M a)[dofs] for every hyperbolic algorithm, for any dof subset and order."""
     from vt import sx, npshim
     from EasyFEA.Simulations.Solvers import AlgoType
     n_ = 4
-    names = [f"{m}{i}{j}" for m in "KCM" for i in range(n_) for j in range(n_)] + [f"{v}{i}" for v in "uva" for i in range(n_)]
+    # `extra` rows and columns after those of the dofs: the Lagrange multipliers of a system with connections (the state vectors keep the size of the dofs)
+    nm = n_ + extra
+    names = [f"{m}{i}{j}" for m in "KCM" for i in range(nm) for j in range(nm)] + [f"{v}{i}" for v in "uva" for i in range(n_)]
     c = Ctx(names, nspare=1)
     NPs = npshim.NP(c)
     g = sx.module_globals("EasyFEA.Simulations._simu", np=NPs, MPI_SIZE=1)
-    mat = {m: np.array([[c.sym(f"{m}{i}{j}") for j in range(n_)] for i in range(n_)], dtype=object) for m in "KCM"}
+    mat = {m: np.array([[c.sym(f"{m}{i}{j}") for j in range(nm)] for i in range(nm)], dtype=object) for m in "KCM"}
     vec = {v: np.array([c.sym(f"{v}{i}") for i in range(n_)], dtype=object) for v in "uva"}
     f = extract.compile_fn(extract.get("EasyFEA/Simulations/_simu.py", "_Simu.Calc_Reaction"), g)
     n = 0
@@ -331,7 +333,11 @@ def ob_calc_reaction(algo):
         me = sx.Mock("self", isNonLinear=False, problemType="pt", algo=AlgoType[algo], Get_dofs=lambda pt=None: np.arange(n_),
                      Get_K_C_M_F=lambda pt=None: (mat["K"], mat["C"], mat["M"], None),
                      _Get_u_n=lambda pt=None: vec["u"], _Get_v_n=lambda pt=None: vec["v"], _Get_a_n=lambda pt=None: vec["a"])
-        got = np.asarray(f(me, None if dofs is None else np.array(dofs)))
+        try:
+            got = np.asarray(f(me, None if dofs is None else np.array(dofs)))
+        except ValueError as ex:
+            raise Refuted(f"Calc_Reaction({dofs}), algo {algo}, matrices of size {nm} for {n_} dofs: raises ValueError: {str(ex)[:120]}", cex=dict(algo=algo, dofs=dofs, multipliers=extra),
+                          signature=f"reaction:{algo}:raises", replay=_replay_reaction(algo))
         dd = list(range(n_)) if dofs is None else dofs
         if got.shape != (len(dd),):
             raise Refuted(f"Calc_Reaction({dofs}) returns shape {got.shape}", signature=f"reaction:{algo}:shape", replay=_replay_reaction(algo))
@@ -669,6 +675,9 @@ def build(tier, seed):
         obs.append(Ob(f"C16.result.{sim}" + (f".s{sd}" if sd else ""), ob_result_other, (sim, seed + sd), "X", (f"EasyFEA/Simulations/_{sim.split('.')[0].lower().replace('3d','')}.py::{sim.split('.')[0].replace('3D','')}.Result",), bound="one small mesh, one arbitrary state",
                       clause="every advertised result name is served; displacement components equal the columns of the vector result", timeout=300))
     for algo in ("elliptic", "parabolic", "newmark", "hht", "midpoint"):
+        if algo in ("elliptic", "newmark"):
+            obs.append(Ob(f"C16.reaction.formula.{algo}.multipliers", ob_calc_reaction, (algo, 2), "P", ("EasyFEA/Simulations/_simu.py::_Simu.Calc_Reaction",),
+                          clause="with matrices that carry two more rows and columns than the state vectors (Lagrange multipliers): Calc_Reaction(dofs) == rows `dofs` of K[:, :Ndof] u (+ C v + M a), any dof subset"))
         obs.append(Ob(f"C16.reaction.formula.{algo}", ob_calc_reaction, (algo,), "P", ("EasyFEA/Simulations/_simu.py::_Simu.Calc_Reaction",),
                       clause="Calc_Reaction(dofs) == rows `dofs` of K u (+ C v for parabolic, + C v + M a for hyperbolic algorithms), any dof subset and order, all matrices and states"))
     for algo in ("newmark", "hht", "midpoint"):
